@@ -57,6 +57,19 @@ func unsupported_() []*Unsupported {
 				return &FileSpec{Name: "p.proto", Msgs: []*M{ok(), msg("U", nil, fld("Str", TString), mapfld("Bad", tsfld("v")))}}
 			}},
 	}
+	// two selected types reach the same nested message with the unmappable field; the field is excluded
+	// by path below one of them only: that one is generated whole, the other not at all
+	shared := func() *FileSpec {
+		return &FileSpec{Name: "p.proto", Msgs: []*M{ok(), msg("Shared", nil, fld("X", TString), tsfld("Bad")),
+			msg("First", nil, fld("Str", TString), mfld("Shared", "Shared")), msg("Second", nil, mfld("Shared", "Shared"), fld("Num", TInt64))}}
+	}
+	us = append(us,
+		&Unsupported{Name: "U-shared-excluded-below-second", Broken: []string{"First"}, Intact: []string{"Second", "Ok"}, Exclude: []string{"First.Shared.Bad"}, File: shared,
+			Cfg: func() *Config { c := noTime("First", "Second", "Ok")(); c.ExcludeFields = []string{"Second.Shared.Bad"}; return c }},
+		&Unsupported{Name: "U-shared-excluded-below-first", Broken: []string{"Second"}, Intact: []string{"First", "Ok"}, Exclude: []string{"Second.Shared.Bad"}, File: shared,
+			Cfg: func() *Config { c := noTime("First", "Second", "Ok")(); c.ExcludeFields = []string{"First.Shared.Bad"}; return c }},
+		&Unsupported{Name: "U-shared-both", Broken: []string{"First", "Second"}, Intact: []string{"Ok"}, Exclude: []string{"Shared.Bad"}, File: shared,
+			Cfg: noTime("First", "Second", "Ok")})
 	// the same shapes with a further selected type declared after the broken one
 	var more []*Unsupported
 	for _, u := range us {
@@ -82,6 +95,9 @@ func selections() []Selection {
 		{"P-order", []string{"Leaf"}}, {"P-order", []string{"Top"}}, {"P-order", []string{"Top", "Leaf"}}, {"P-order", []string{"Top", "Mid", "Leaf"}},
 		{"P-order", []string{"Leaf", "Mid"}}, {"P-multi", []string{"A"}}, {"P-multi", []string{"B", "A"}}, {"P-multi", []string{"A", "Shared"}},
 		{"P-multi", []string{"Shared", "Mid"}}, {"P-nest", []string{"N1", "Inner", "Leaf"}}, {"P-oneof", []string{"O2", "O1"}}, {"P-oneof", []string{"O2"}},
+		// messages embedded directly in a selected type (their fields carry the path of that type)
+		{"P-embed", []string{"E1"}}, {"P-embed", []string{"E1", "Emb"}}, {"P-embed", []string{"E2", "EmbP"}}, {"P-embed-x", []string{"EX2"}},
+		{"P-docs", []string{"Doc"}}, {"P-docs", []string{"DE1", "Doc"}},
 	}
 }
 
